@@ -1202,6 +1202,12 @@ fn write_attribute_value<W: Write>(
                             p.value_expr(w)?;
                             write!(w, ")")?;
                             Ok(())
+                        })?;
+                        // on a component `style` (or `class`) can be a property: the change is
+                        // only queued until the element is reported as updated
+                        w.expr_stmt(|w| {
+                            write!(w, "E(N)")?;
+                            Ok(())
                         })
                     })?;
                 }
